@@ -265,8 +265,14 @@ CHECKS = {
        "per-multiplier lookup tables (C17gf16_mul16LUT, C17gf16_mul256LUT, C17gf16_nibble_compose: Lo/Hi byte tables and the "
        "4x16 SIMD nibble tables compose to the direct product for every multiplier and operand) and the skew table "
        "(skewOK16: logarithms of the LCH twiddle factors) and the Walsh table (errLocs_ok16) are characterised "
-       "structurally as well.",
-  note=TB + " Leopard tables of the running package are tied to the model by executed comparison (complete for GF8 and for GF16 log/exp/skew/walsh; "
+       "structurally as well. The FUNCTIONS that read the tables are regenerated too: a Go-subset -> Lean translator "
+       "rewrites galAdd/galMultiply/galDivide/galOneOver/galExp, addMod/subMod/mulLog/ceilPow2/fwht2alt (GF8 and GF16), both "
+       "isNeeded methods and matrix.go with four generator builders from the current source on every run; C17f_* / C17m_* "
+       "prove the regenerated definitions equal the model/specification functions for ALL inputs in the Go types' ranges "
+       "(panics included); matrix.Invert and buildMatrix are compared with the model by execution (flag gen=). A construct "
+       "outside the subset is rejected and reported as a broken obligation (no-failing-input-found), never guessed.",
+  note=TB + " Faithfulness of the Go-subset translator (integer widths, wrap-around, value-semantics slices, panics) is trusted; it is "
+       "cross-checked by running the package's own functions on the same inputs. Leopard tables of the running package are tied to the model by executed comparison (complete for GF8 and for GF16 log/exp/skew/walsh; "
        "sampled log_m for the 33M-entry GF16 product tables); GF2P8AFFINEQB semantics as in the Intel SDM.",
   design="4/C17"),
 }
